@@ -122,6 +122,7 @@ func main() {
 	genDiscovery()
 	genConfig()
 	genCache()
+	genRun()
 	if forProp == "" || forProp == "C15" {
 		genLockset()
 	}
